@@ -612,4 +612,104 @@ theorem markerFree_one (tmpl a : QStr) : MarkerFree tmpl [a] = true := by
 
 theorem markerFree_nil (tmpl : QStr) : MarkerFree tmpl [] = true := rfl
 
+/-! ### `Plain` in words: no marker inside, and the text does not end in `%` or `%L` -/
+
+/-- one scanner transition -/
+def argNext : ArgSt → UInt16 → ArgSt
+  | .normal, c => litNext c
+  | .pct, c => if c = 76 then .pctL else if isDig c then .d1 false c else litNext c
+  | .pctL, c => if isDig c then .d1 true c else litNext c
+  | .d1 _ _, c => if isDig c then .normal else litNext c
+
+theorem argEnd_cons (st : ArgSt) (c : UInt16) (cs : QStr) : argEnd st (c :: cs) = argEnd (argNext st c) cs := by
+  cases st <;> simp only [argEnd, argNext] <;> (repeat' split) <;> rfl
+
+theorem argEnd_snoc (a : QStr) (c : UInt16) : ∀ st, argEnd st (a ++ [c]) = argNext (argEnd st a) c := by
+  induction a with
+  | nil => intro st; rw [List.nil_append, argEnd_cons]; rfl
+  | cons x xs ih => intro st; rw [List.cons_append, argEnd_cons, argEnd_cons, ih]
+
+theorem argNext_pct {st : ArgSt} {c : UInt16} : argNext st c = .pct ↔ c = 37 := by
+  have hd : isDig 37 = false := by decide
+  constructor
+  · intro h
+    cases st <;> simp only [argNext, litNext] at h <;> (repeat' split at h) <;> first | assumption | cases h
+  · rintro rfl
+    cases st <;> simp [argNext, litNext, hd]
+
+theorem argNext_pctL {st : ArgSt} {c : UInt16} : argNext st c = .pctL ↔ st = .pct ∧ c = 76 := by
+  constructor
+  · intro h
+    cases st <;> simp only [argNext, litNext] at h <;> (repeat' split at h) <;>
+      first | exact ⟨rfl, by assumption⟩ | cases h
+  · rintro ⟨rfl, rfl⟩; simp [argNext]
+
+/-- the scanner ends in `.pct` exactly after a text ending in `%` -/
+theorem argEnd_normal_pct (a : QStr) : argEnd .normal a = .pct ↔ a.getLast? = some 37 := by
+  rcases List.eq_nil_or_concat a with rfl | ⟨b, c, rfl⟩
+  · simp [argEnd]
+  · simp only [List.concat_eq_append, argEnd_snoc, argNext_pct, List.getLast?_concat, Option.some.injEq]
+
+/-- … and in `.pctL` exactly after a text ending in `%L` -/
+theorem argEnd_normal_pctL (a : QStr) : argEnd .normal a = .pctL ↔ [37, 76] <:+ a := by
+  rcases List.eq_nil_or_concat a with rfl | ⟨b, c, rfl⟩
+  · simp [argEnd]
+  · simp only [List.concat_eq_append, argEnd_snoc, argNext_pctL, argEnd_normal_pct]
+    constructor
+    · rintro ⟨h, rfl⟩
+      rcases List.eq_nil_or_concat b with rfl | ⟨b', c', rfl⟩
+      · simp at h
+      · simp only [List.concat_eq_append, List.getLast?_concat, Option.some.injEq] at h
+        subst h
+        exact ⟨b', by simp⟩
+    · rintro ⟨t, ht⟩
+      have h2 : t ++ [37] ++ [76] = b ++ [c] := by rw [← ht]; simp
+      have := List.append_inj' h2 rfl
+      obtain ⟨h3, h4⟩ := this
+      simp only [List.cons.injEq, and_true] at h4
+      subst h4
+      rw [← h3]
+      exact ⟨List.getLast?_concat .., rfl⟩
+
+theorem argEnd_noEsc (a : QStr) : ∀ st, noEsc (argScan st a) = true → ∀ loc d, argEnd st a ≠ .d1 loc d := by
+  induction a with
+  | nil =>
+    intro st h loc d e
+    simp only [argEnd] at e; subst e
+    simp [argScan, noEsc] at h
+  | cons c cs ih =>
+    intro st h loc d
+    rw [argEnd_cons]
+    apply ih
+    cases st with
+    | normal =>
+      simp only [argScan] at h
+      simp only [argNext, litNext]
+      split <;> simp_all [noEsc]
+    | pct =>
+      simp only [argScan] at h
+      simp only [argNext, litNext, isDig]
+      (repeat' split at h) <;> simp_all [noEsc]
+    | pctL =>
+      simp only [argScan] at h
+      simp only [argNext, litNext, isDig]
+      (repeat' split at h) <;> simp_all [noEsc]
+    | d1 l x => rw [noEsc_d1] at h; cases h
+
+/-- **`Plain` in words** -/
+theorem plain_iff (a : QStr) :
+    Plain a = true ↔ noEsc (argScan .normal a) = true ∧ a.getLast? ≠ some 37 ∧ ¬ [37, 76] <:+ a := by
+  simp only [Plain, Bool.and_eq_true, beq_iff_eq]
+  rw [← argEnd_normal_pctL, Ne, ← argEnd_normal_pct]
+  constructor
+  · rintro ⟨h1, h2⟩; rw [h2]; exact ⟨h1, by simp, by simp⟩
+  · rintro ⟨h1, h2, h3⟩
+    refine ⟨h1, ?_⟩
+    have := argEnd_noEsc a .normal h1
+    cases h : argEnd .normal a with
+    | normal => rfl
+    | pct => exact absurd h h2
+    | pctL => exact absurd h h3
+    | d1 loc d => exact absurd h (this loc d)
+
 end Qhttp.RouteL
